@@ -41,8 +41,9 @@ type Scenario struct {
 	PID        int     `json:"pid"`
 	Cred       string  `json:"cred"`
 	Ident      Ident   `json:"ident"`
-	LoginAfter int     `json:"loginAfter"` // the RemoteLogin is delivered after this many groups
-	LoginSec   int64   `json:"loginSec"`   // LoggedAt of the sshd login event (seconds): before, among or after the records' timestamps
+	LoginAfter int     `json:"loginAfter"`              // the RemoteLogin is delivered after this many groups
+	Debug      bool    `json:"debug_logging,omitempty"` // correlator and audit processor log at DEBUG level
+	LoginSec   int64   `json:"loginSec"`                // LoggedAt of the sshd login event (seconds): before, among or after the records' timestamps
 	Groups     []Group `json:"groups"`
 }
 
@@ -388,5 +389,6 @@ func genScenario(r *hutil.Rand, long bool) Scenario {
 	default:
 		sc.LoginSec = 1600000000
 	}
+	sc.Debug = r.Chance(1, 3)
 	return sc
 }
